@@ -467,6 +467,26 @@ func runC03(c *Ctx) {
 				}
 				// must be after a successful processValidated
 				ok2, _ := pfacts.NilErrAt(b, IsCall("(*consensus.Executer).processValidated"))
+				if !ok2 {
+					// … or it forgets what it knew (a nil / zero value) after a sync ran, on the way
+					// where the tip is no longer the block it was: nothing about the incoming block is
+					// remembered, the chain itself has changed
+					if cst, isC := st.Val.(*ssa.Const); isC && cst.IsNil() {
+						after := false
+						for _, sc := range CallsIn(process, "(*consensus/sync.Syncer).Sync") {
+							if instrDominates(sc.Call, st) {
+								after = true
+							}
+						}
+						tipChanged := false
+						for _, f := range pfacts.FactsAt(b) {
+							if t := f.String(); strings.Contains(t, "LastBlock(") && strings.Contains(t, ".ID") {
+								tipChanged = true
+							}
+						}
+						ok2 = after && tipChanged
+					}
+				}
 				c.Require("C03.N executer-state-after-accept", FuncKey(process)+": store Executer."+name, p.InstrPos(st), "receive-path state (used by later fork-choice decisions) changes only after the block was accepted", ok2, "")
 			}
 		}
